@@ -35,10 +35,16 @@ type c09Input struct {
 	Inj     injection    `json:"injection"`
 	Choices []int        `json:"choices"`
 	Text    string       `json:"text,omitempty"`
+	// checksum twins (gen.ChecksumTwins): After is an ACCEPTABLE document of the same length and the same CRC-32 / CRC-64
+	// checksums as the injected one; it is parsed first. Suffix is the comment line that makes the injected document its twin.
+	After  string `json:"parsed_first,omitempty"`
+	Suffix string `json:"suffix,omitempty"`
 }
 
 func (in c09Input) render() *gen.Rendered {
-	return gen.Render(in.Model, &vectorChooser{digits: in.Choices}, gen.RenderOpts{Module: in.Module, Extend: in.Extend, Header: in.Header})
+	r := gen.Render(in.Model, &vectorChooser{digits: in.Choices}, gen.RenderOpts{Module: in.Module, Extend: in.Extend, Header: in.Header})
+	r.Text += in.Suffix
+	return r
 }
 
 var injectionKinds = []string{
@@ -372,6 +378,11 @@ func parseErrPositions(err error) []errPos {
 
 // c09Check returns (C09 violation, C16 violation, harness error).
 func c09Check(in c09Input) (string, string, string, *gen.Rendered) {
+	if in.After != "" {
+		_, _ = transformer.TransformDSLToProto(in.After)
+		_, _, _ = transformer.TransformModularDSLToProto(in.After)
+		_, _ = transformer.TransformDSLToJSON(in.After)
+	}
 	r := in.render()
 	// The injector is validated against the grammar as pinned when it was written: the catalogue of rule
 	// violations is defined by the property, not by whatever the repository's .g4 says today (a seeded change
@@ -442,6 +453,18 @@ func c09Run(t *testing.T, prop string, rec *ev.Rec, which int) {
 		in, ok := c09Inject(rt)
 		if !ok {
 			return
+		}
+		if which == 9 && rapid.IntRange(0, 7).Draw(rt, "twin") == 0 {
+			// checksum twins: an acceptable document of the same length, CRC-32 and CRC-64 as the injected one is parsed
+			// first; the injected one must still be rejected
+			valid := "model\n  schema 1.1\ntype user\ntype doc\n  relations\n    define viewer: [user] or (editor and owner)\n    define editor: [user]\n    define owner: [user]\n"
+			if in.Module != "" {
+				valid = "module core\ntype user\ntype doc\n  relations\n    define viewer: [user]\n"
+			}
+			if a2, b2, ok := gen.ChecksumTwins(valid, in.render().Text); ok {
+				in.After, in.Suffix = a2, b2[len(in.render().Text):]
+				rec.Class("history:checksum-twin-parsed-after-its-twin", 1)
+			}
 		}
 		v09, v16, herr, r := c09Check(in)
 		cls := append([]string{"inject:" + in.Inj.Kind}, featureList(r)...)
